@@ -408,3 +408,55 @@ Fixpoint dfs_log_g (fuel : nat) (fp : nat -> list desc) (limit : Z)
 
 Definition find_roots_run (fuel : nat) (fp : nat -> list desc) (limit : Z) (node : desc) :=
   dfs_log_g fuel fp limit [(node, Z.to_nat findRoots_start_depth)] [] [] [].
+
+(* ------------------------------------------------------------------ the filters with the decisions
+   re-read from FilterAnnotation / FilterArtifactType (Generated/GC03.v *_keep, *_fetch_guard):
+   the version the extracted runner executes; Proofs/FindRoots.v find_preds_g_eq shows it is
+   find_preds (and breaks when a keep closure or a fetch guard of the source changes). *)
+Definition keep_ann_g (key : str) (re : option (str -> bool)) (p : desc) : bool :=
+  let ov := match d_ann p with
+            | None => (false, [])                 (* value, ok := nilmap[key] *)
+            | Some m => match lookup key m with None => (false, []) | Some v => (true, v) end
+            end in
+  filterAnnotation_keep (fst ov)
+    (match re with None => true | Some _ => false end)
+    (match re with Some f => f (snd ov) | None => false end).
+
+Definition keep_at_g (re : str -> bool) (p : desc) : bool :=
+  filterArtifactType_keep true false (re (d_at p)).
+
+Definition fill_at_g (s : source) (p : desc) : desc :=
+  if filterArtifactType_fetch_guard (is_empty (d_at p)) then
+    if at_fetch_kind (s_kind s (d_id p)) then mkDesc (d_id p) (fetch_artifact_type s (d_id p)) (d_ann p) else p
+  else p.
+
+Definition fill_ann_g (s : source) (p : desc) : desc :=
+  if filterAnnotation_fetch_guard (match d_ann p with None => true | Some _ => false end) then
+    if ann_fetch_kind (s_kind s (d_id p))
+    then mkDesc (d_id p) (d_at p) (Some (fetch_annotations s (d_id p))) else p
+  else p.
+
+Definition apply_filter_g (s : source) (f : filter) (ps : list desc) : list desc :=
+  match f with
+  | FArt None => ps
+  | FArt (Some re) => List.filter (keep_at_g re) (map (fill_at_g s) ps)
+  | FAnn key re => List.filter (keep_ann_g key re) (map (fill_ann_g s) ps)
+  end.
+
+Definition apply_lister_g (f : filter) (ps : list desc) : list desc :=
+  match f with
+  | FArt None => ps
+  | FArt (Some re) => List.filter (keep_at_g re) ps
+  | FAnn key re => List.filter (keep_ann_g key re) ps
+  end.
+
+Definition step_g (s : source) (acc : bool * list desc) (f : filter) : bool * list desc :=
+  if is_noop f then acc
+  else if (fst acc && s_lister s)%bool then (false, apply_lister_g f (snd acc))
+  else (false, apply_filter_g s f (snd acc)).
+
+Definition find_preds_g (s : source) (fs : list filter) (id : nat) : list desc :=
+  snd (fold_left (step_g s) fs (true, s_preds s id)).
+
+Definition find_preds_custom_g (s : source) (custom : nat -> list desc) (fs : list filter) (id : nat) : list desc :=
+  snd (fold_left (step_g s) fs (false, custom id)).
